@@ -5,6 +5,11 @@
    ('Numeric operation on symbolic while not tracing'). liquid's loop helpers
    (ForLoop.rindex, TableRow.col_last, ...) are properties reached through
    getattr(self, key). The replacement runs property getters with tracing on.
+2. optional short-circuiting: CrossHair may replace a call to a function that carries a
+   contract (its own repr() stand-in has `post[]: True`) by a fresh unconstrained symbolic
+   result. That over-approximates (spurious counterexamples) and doubles the path count at
+   every repr() - liquid builds f"{root!r} is undefined" on every undefined lookup. Optional
+   short-circuits are never taken; the function is always executed.
 """
 from crosshair import core as _core
 from crosshair.libimpl import builtinslib as _bl
@@ -36,5 +41,15 @@ def _getattr(obj, name, default=_MISSING):
         return _builtin_getattr(obj, name, default)
 
 
+_orig_consider = _core.consider_shortcircuit
+
+
+def _consider_shortcircuit(fn, sig, bound, subconditions, allow_interpretation):
+    if allow_interpretation:
+        return None
+    return _orig_consider(fn, sig, bound, subconditions, allow_interpretation)
+
+
 def apply():
     _core._PATCH_REGISTRATIONS[_builtin_getattr] = _getattr
+    _core.consider_shortcircuit = _consider_shortcircuit
